@@ -221,15 +221,15 @@ class JSONCollection(SyncedCollection):
     def filename(self, value):
         # When setting the filename we must also remap the locks.
         with self._thread_lock:
-            self._filename = value
-
             # Other collections may still be bound to the old file (and use its
             # lock), and the new file may already have a lock that others are
-            # using, so locks are never moved: create one only if needed.
+            # using, so locks are never moved: create one only if needed. The
+            # lock must exist before the collection is bound to the new file.
             if type(self)._threading_support_is_active:
                 with type(self)._cls_lock:
-                    if self._lock_id not in type(self)._locks:
-                        type(self)._locks[self._lock_id] = RLock()
+                    if value not in type(self)._locks:
+                        type(self)._locks[value] = RLock()
+            self._filename = value
 
     @property
     def _lock_id(self):
